@@ -105,6 +105,16 @@ def mk_val(sp):
         return tuple(mk_val(x) for x in sp[1])
     if k == "set":
         return {mk_val(x) for x in sp[1]}
+    if k == "iter":         # a one-shot iterator over the given list
+        return iter(mk_val(sp[1]))
+    if k == "odict":
+        import collections
+        return collections.OrderedDict(mk_val(sp[1]))
+    if k == "deque":
+        import collections
+        return collections.deque(mk_val(sp[1]))
+    if k == "fset":
+        return frozenset(mk_val(sp[1]))
     if k == "obj":          # an instance built by unmarshalling a plain dict cold-independently: by the constructor
         import c12_types
         return build_obj(c12_types.CLASSES[sp[1]], mk_val(sp[2]))
@@ -122,6 +132,8 @@ def build_obj(cls, d):
         return cls(**d)
     if cls is c12_types.Color:
         return cls(d)
+    if cls.__name__.startswith("Src") and cls is not c12_types.SrcDC:
+        return cls(d["x"], d["y"])
     return cls(**d)
 
 
@@ -229,6 +241,9 @@ def cache_groups():
     return g
 
 
+CONSTRUCTED = ('"obj"', '"iter"', '"odict"', '"deque"', '"fset"', '"set"')   # inputs rebuilt from their spec, not from a snapshot
+
+
 def call_op(op, x):
     """the public call of one operation on input object x; returns (obs, result object)"""
     import typelib
@@ -242,6 +257,11 @@ def call_op(op, x):
         except Exception:  # construction errors are not observed by the model's universe
             pass
         return ["unit"], None
+    if k in ("iteritems", "itervalues"):      # the generic iteration every structured routine is built on
+        from typelib import serdes
+        f = getattr(serdes, k)
+        obs, _ = observe(lambda: [list(p) if k == "iteritems" else p for p in f(x)])
+        return obs, None
     T = mk_type(op["t"])
     if k == "unmarshal":
         return observe(lambda: typelib.unmarshal(T, x))
@@ -369,7 +389,7 @@ def run_history(ops, stop_before=None):
         else:
             x = inputs[xs["old"]] if xs["old"] < len(inputs) else None
         before = to_spec(x)
-        snap = xs["new"] if "new" in xs and '"obj"' in json.dumps(xs["new"]) else before
+        snap = xs["new"] if "new" in xs and any(k in json.dumps(xs["new"]) for k in CONSTRUCTED) else before
         texts_in(x, texts)
         o, r = call_op(op, x)
         after = to_spec(x)
@@ -499,7 +519,7 @@ def diagnose(ops, at, cold):
         a == b and hash(a) == hash(b) and iso_body(a) != iso_body(b)
         for a in tm for b in prev)
     # facts: an ==-equal annotation with another member order was used before
-    cur = ann_subterms(mk_type(op["t"]))
+    cur = ann_subterms(mk_type(op["t"])) if "t" in op else []
     old = [s for o2 in ops[:at] if "t" in o2 for s in ann_subterms(mk_type(o2["t"]))]
     facts["equal_annotation_other_order"] = any(_eq(a, b) and ann_sig(a) != ann_sig(b) for a in cur for b in old)
     facts["equal_annotation_other_spelling"] = any(
